@@ -28,6 +28,9 @@ pub struct GenCfg {
     pub bad_conj: usize,
     /// give some nodes names that look like names patronus generates itself (`__n5`, `s0@0`, ...)
     pub clash_names: bool,
+    /// widths on both sides of the 32/64/128-bit word boundaries, more states and inputs; only for
+    /// checks whose oracle does not enumerate the state space
+    pub huge: bool,
 }
 
 impl GenCfg {
@@ -51,6 +54,7 @@ impl GenCfg {
             structured: rng.chance(1, 2),
             bad_conj: 1 + rng.usize_below(3),
             clash_names: false,
+            huge: false,
         }
     }
 }
@@ -128,6 +132,9 @@ impl<'a> G<'a> {
     }
 
     fn pick_width(&mut self) -> u32 {
+        if self.cfg.huge && self.rng.chance(1, 2) {
+            return *self.rng.pick(&[8, 16, 31, 32, 33, 63, 64, 65, 127, 128]);
+        }
         if self.cfg.wide && self.rng.chance(1, 3) {
             *self.rng.pick(&[8, 8, 12, 16])
         } else {
@@ -231,7 +238,7 @@ impl<'a> G<'a> {
                 let a = self.any_bv_node();
                 let b = self.any_bv_node();
                 let w = self.sys.ty(a).width() + self.sys.ty(b).width();
-                if w <= 16 {
+                if w <= if self.cfg.huge { 128 } else { 16 } {
                     let (n0, n1) = (self.neg_flag(), self.neg_flag());
                     self.add(NOp::Concat, vec![a, b], vec![n0, n1], Ty::Bv(w));
                 }
@@ -248,7 +255,7 @@ impl<'a> G<'a> {
                 let a = self.any_bv_node();
                 let w = self.sys.ty(a).width();
                 let k = self.rng.below(4) as u32;
-                if w + k <= 16 {
+                if w + k <= if self.cfg.huge { 128 } else { 16 } {
                     let op = if self.rng.bool() { NOp::Uext(k) } else { NOp::Sext(k) };
                     let ng = self.neg_flag();
                     self.add(op, vec![a], vec![ng], Ty::Bv(w + k));
@@ -431,9 +438,13 @@ pub fn generate(rng: &mut Rng, cfg: &GenCfg) -> Sys {
 
     // inputs
     let mut ib = 0;
-    let n_in = g.rng.below(4);
+    let n_in = if cfg.huge { g.rng.below(8) } else { g.rng.below(4) };
     for i in 0..n_in {
-        let w = *g.rng.pick(&[1u32, 1, 2, 2, 3, 4]);
+        let w = if cfg.huge && g.rng.chance(1, 2) {
+            *g.rng.pick(&[8u32, 32, 33, 64, 65, 128])
+        } else {
+            *g.rng.pick(&[1u32, 1, 2, 2, 3, 4])
+        };
         if ib + w > cfg.max_input_bits {
             break;
         }
@@ -444,12 +455,14 @@ pub fn generate(rng: &mut Rng, cfg: &GenCfg) -> Sys {
     }
     // states
     let mut sb = 0;
-    let n_st = if g.rng.chance(1, 16) { 0 } else { g.rng.range(1, 4) };
+    let n_st = if g.rng.chance(1, 16) { 0 } else if cfg.huge { g.rng.range(1, 8) } else { g.rng.range(1, 4) };
     for _ in 0..n_st {
         let ty = if cfg.arrays && g.rng.chance(1, 3) {
             let iw = g.rng.range(1, 2) as u32;
             let dw = g.rng.range(1, 3) as u32;
             Ty::Arr(iw, dw)
+        } else if cfg.huge && g.rng.chance(1, 2) {
+            Ty::Bv(*g.rng.pick(&[8u32, 16, 32, 33, 63, 64, 65, 127, 128]))
         } else if cfg.wide && g.rng.chance(1, 4) {
             Ty::Bv(8)
         } else {
